@@ -865,6 +865,7 @@ func runC06(w *World, r *Report) {
 	}
 	checkpointPruneAtomic(w, r)
 	checkpointWritesEveryAddress(w, r, "checkpoint-replaces-every-record")
+	checkpointKeyDiscipline(w, r, "checkpoint-keys-agree")
 	r.rule("flow-classifier", "pourFunds classifies issuer→outflow and receiver→inflow as two independent tests with the same amount", 4)
 	pourFundsRoles(w, r, "flow-classifier")
 
@@ -951,6 +952,7 @@ func runC07(w *World, r *Report) {
 	}
 
 	checkpointWritesEveryAddress(w, r, "checkpoint-writes-every-address")
+	checkpointKeyDiscipline(w, r, "checkpoint-keys-agree")
 
 	storageWriters(w, r, "storage-only-what-is-pruned")
 
@@ -1128,4 +1130,301 @@ func checkpointWritesEveryAddress(w *World, r *Report, rule string) {
 			r.check(okv != nil && skipped == 0, rule, "saveToStorage/every-address", lineOf(w, next), "every ranged address reaches the save callback with its own key", fmt.Sprintf("%d ways to the next iteration without writing", skipped))
 		}
 	}
+}
+
+// ---------------------------------------------------------------------------------------------
+// checkpoint record keys
+
+// capturedValue: the single value a captured variable holds (stored once into the cell the closure captured).
+func capturedValue(fv *ssa.FreeVar) ssa.Value {
+	fn := fv.Parent()
+	par := fn.Parent()
+	if par == nil {
+		return nil
+	}
+	idx := -1
+	for i, f := range fn.FreeVars {
+		if f == fv {
+			idx = i
+		}
+	}
+	var bound ssa.Value
+	instrsOf(par, func(in ssa.Instruction) {
+		if mc, ok := in.(*ssa.MakeClosure); ok && mc.Fn == ssa.Value(fn) && idx >= 0 && idx < len(mc.Bindings) {
+			bound = mc.Bindings[idx]
+		}
+	})
+	switch b := bound.(type) {
+	case *ssa.Alloc:
+		if storeCount(b) != 1 {
+			return nil
+		}
+		for _, ref := range *b.Referrers() {
+			if st, ok := ref.(*ssa.Store); ok && st.Addr == ssa.Value(b) {
+				return st.Val
+			}
+		}
+	case *ssa.FreeVar:
+		return capturedValue(b)
+	}
+	return nil
+}
+
+// keyShape prints how v is computed from the leaf for which isLeaf holds ("$"): conversions, concatenations, calls.
+func keyShape(v ssa.Value, isLeaf func(ssa.Value) bool, d int) string {
+	if d > 12 || v == nil {
+		return "?"
+	}
+	if isLeaf(v) {
+		return "$"
+	}
+	switch x := v.(type) {
+	case *ssa.ChangeType:
+		return keyShape(x.X, isLeaf, d+1)
+	case *ssa.Convert:
+		return keyShape(x.X, isLeaf, d+1) // []byte(s) / string(b): the same bytes
+	case *ssa.MakeInterface:
+		return keyShape(x.X, isLeaf, d+1)
+	case *ssa.UnOp:
+		if x.Op == token.MUL {
+			switch c := x.X.(type) {
+			case *ssa.FreeVar:
+				if cv := capturedValue(c); cv != nil {
+					return keyShape(cv, isLeaf, d+1)
+				}
+			case *ssa.Alloc:
+				if storeCount(c) == 1 {
+					for _, ref := range *c.Referrers() {
+						if st, ok := ref.(*ssa.Store); ok && st.Addr == ssa.Value(c) {
+							return keyShape(st.Val, isLeaf, d+1)
+						}
+					}
+				}
+			}
+		}
+		return "?" + x.Name()
+	case *ssa.Const:
+		if x.Value == nil {
+			return "nil"
+		}
+		return "k" + x.Value.ExactString()
+	case *ssa.BinOp:
+		return "(" + keyShape(x.X, isLeaf, d+1) + x.Op.String() + keyShape(x.Y, isLeaf, d+1) + ")"
+	case *ssa.Slice:
+		s := "slice(" + keyShape(x.X, isLeaf, d+1)
+		for _, b := range []ssa.Value{x.Low, x.High} {
+			if b == nil {
+				s += ",_"
+			} else {
+				s += "," + keyShape(b, isLeaf, d+1)
+			}
+		}
+		return s + ")"
+	case *ssa.Call:
+		n := calleeName(x)
+		if i := strings.LastIndex(n, "/"); i >= 0 {
+			n = n[i+1:]
+		}
+		s := n + "("
+		for i, a := range x.Call.Args {
+			if i > 0 {
+				s += ","
+			}
+			s += keyShape(a, isLeaf, d+1)
+		}
+		return s + ")"
+	}
+	return "?" + v.Name()
+}
+
+// checkpointKeyDiscipline: the checkpoint records of the funds are written, read back and enumerated under the same
+// key, and the enumeration tells them apart from the vertex records that live in the same store.
+func checkpointKeyDiscipline(w *World, r *Report, rule string) {
+	r.rule(rule, "checkpointed funds are written (saveFundsToStorage), read (readAddressFundsFromStorage) and enumerated (forEachfundFromStorage) under one key form of the address — the enumeration hands back the inverse of what the writer applied — and the enumeration skips the vertex records kept in the same store (keys of the vertex-hash length)", 3)
+	save := w.fx(r, "accountant", "AccountingBook", "saveFundsToStorage")
+	read := w.fx(r, "accountant", "AccountingBook", "readAddressFundsFromStorage")
+	each := w.fx(r, "accountant", "AccountingBook", "forEachfundFromStorage")
+	if save == nil || read == nil || each == nil {
+		return
+	}
+	paramLeaf := func(p *ssa.Parameter) func(ssa.Value) bool {
+		return func(v ssa.Value) bool { return v == ssa.Value(p) }
+	}
+	// writer: the key of every entry written
+	var wShapes []string
+	for _, fn := range WithAnon(save.fn) {
+		for _, c := range callsTo(fn, "("+badgerPkg+".Txn).SetEntry", "(*"+badgerPkg+".Txn).SetEntry", "(*"+badgerPkg+".Txn).Set") {
+			_, a := callArgs(c)
+			if len(a) == 0 {
+				continue
+			}
+			key := a[0]
+			if ne, ok := strip(a[0]).(*ssa.Call); ok && strings.HasSuffix(calleeName(ne), ".NewEntry") {
+				key = ne.Call.Args[0]
+			}
+			wShapes = append(wShapes, keyShape(key, paramLeaf(save.fn.Params[1]), 0))
+		}
+	}
+	var rShapes []string
+	for _, fn := range WithAnon(read.fn) {
+		for _, c := range callsTo(fn, "(*"+badgerPkg+".Txn).Get") {
+			_, a := callArgs(c)
+			rShapes = append(rShapes, keyShape(a[0], paramLeaf(read.fn.Params[1]), 0))
+		}
+	}
+	okWR := len(wShapes) > 0 && len(rShapes) > 0
+	for _, s := range append(append([]string{}, wShapes...), rShapes...) {
+		if s != wShapes[0] || strings.Contains(s, "?") {
+			okWR = false
+		}
+	}
+	r.check(okWR, rule, "save/read-key", w.Pos(save.fn.Pos()), "writer and reader derive the record key from the address in the same way", fmt.Sprintf("written under %v, read under %v", wShapes, rShapes))
+	// enumeration: what the callback receives, in terms of the item key
+	isItemKey := func(v ssa.Value) bool {
+		c, ok := v.(*ssa.Call)
+		if !ok {
+			return false
+		}
+		n := calleeName(c)
+		return strings.HasSuffix(n, ".Item).Key") || strings.HasSuffix(n, ".Item).KeyCopy")
+	}
+	var eShapes []string
+	var setCalls []ssa.CallInstruction
+	cb := each.fn.Params[1]
+	for _, fn := range WithAnon(each.fn) {
+		instrsOf(fn, func(in ssa.Instruction) {
+			c, ok := in.(ssa.CallInstruction)
+			if !ok || c.Common().IsInvoke() || c.Common().StaticCallee() != nil {
+				return
+			}
+			// call of the callback parameter (possibly through the captured variable)
+			cv := c.Common().Value
+			isCb := cv == ssa.Value(cb)
+			if ld, ok := cv.(*ssa.UnOp); ok && ld.Op == token.MUL {
+				if fv, ok := ld.X.(*ssa.FreeVar); ok && capturedValue(fv) == ssa.Value(cb) {
+					isCb = true
+				}
+			}
+			if fv, ok := cv.(*ssa.FreeVar); ok && capturedValue(fv) == ssa.Value(cb) {
+				isCb = true
+			}
+			if !isCb || len(c.Common().Args) == 0 {
+				return
+			}
+			setCalls = append(setCalls, c)
+			eShapes = append(eShapes, keyShape(c.Common().Args[0], isItemKey, 0))
+		})
+	}
+	okE := len(eShapes) > 0 && len(wShapes) > 0
+	why := fmt.Sprintf("written under %v, enumerated as %v", wShapes, eShapes)
+	for _, s := range eShapes {
+		if strings.Contains(s, "?") {
+			okE = false
+		}
+		if len(wShapes) > 0 && (wShapes[0] == "$") != (s == "$") {
+			okE = false // identity on one side only: the enumerated name is not the address the record was written for
+		}
+	}
+	r.check(okE, rule, "enumerate-key", w.Pos(each.fn.Pos()), "the enumeration hands the callback the address the record was written for", why)
+	// vertex records of the same store are not taken for funds
+	sv := w.fx(r, "accountant", "AccountingBook", "saveVertexToStorage")
+	if sv == nil {
+		return
+	}
+	dbOf := func(fn *ssa.Function) string {
+		db := ""
+		for _, f := range WithAnon(fn) {
+			for _, c := range callsTo(f, "(*"+badgerPkg+".DB).Update", "(*"+badgerPkg+".DB).View") {
+				recv, _ := callArgs(c)
+				db = pathOf(recv)
+			}
+		}
+		if i := strings.LastIndex(db, "."); i >= 0 {
+			db = db[i+1:]
+		}
+		return db
+	}
+	if dbOf(sv.fn) == "" || dbOf(sv.fn) != dbOf(save.fn) {
+		r.ok(rule, "records-told-apart", w.Pos(each.fn.Pos()), "vertex records and funds records live in different stores")
+		return
+	}
+	// length of a vertex key
+	var vlen int64 = -1
+	for _, f := range WithAnon(sv.fn) {
+		for _, c := range callsTo(f, badgerPkg+".NewEntry") {
+			if sl, ok := strip(c.Common().Args[0]).(*ssa.Slice); ok {
+				if pt, ok := sl.X.Type().Underlying().(*types.Pointer); ok {
+					if at, ok := pt.Elem().Underlying().(*types.Array); ok {
+						vlen = at.Len()
+					}
+				}
+			}
+		}
+	}
+	// a prefix scan with a non-empty prefix separates the record kinds by construction
+	prefixed := false
+	for _, f := range WithAnon(each.fn) {
+		for _, c := range callsTo(f, "(*"+badgerPkg+".Iterator).ValidForPrefix") {
+			_, a := callArgs(c)
+			if len(a) > 0 && !isNilConst(a[0]) {
+				prefixed = true
+			}
+		}
+	}
+	told := prefixed
+	whyT := fmt.Sprintf("no test of the key length against %d separates vertex records from funds records in the full scan", vlen)
+	if !told && vlen > 0 {
+		for _, f := range WithAnon(each.fn) {
+			for _, b := range f.Blocks {
+				for i := range b.Succs {
+					e := Edge{b, i}
+					for _, ft := range edgeFacts(e) {
+						if ft.kind != fEq {
+							continue
+						}
+						x, y := ft.x, ft.y
+						if k, isK := intConst(x); isK && k == vlen {
+							x, y = y, x
+						}
+						k, isK := intConst(y)
+						if !isK || k != vlen {
+							continue
+						}
+						lc, ok := x.(*ssa.Call)
+						if !ok {
+							continue
+						}
+						if bi, ok := lc.Call.Value.(*ssa.Builtin); !ok || bi.Name() != "len" || keyShape(lc.Call.Args[0], isItemKey, 0) != "$" {
+							continue
+						}
+						// from the edge "this is a vertex key" no callback call (nor the Value call that hosts it) before the next item
+						reached := false
+						walkFrom(nil, e.To(), nil, func(in ssa.Instruction) bool {
+							if c, ok := in.(ssa.CallInstruction); ok {
+								n := calleeName(c)
+								if strings.HasSuffix(n, ".Iterator).Next") {
+									return true
+								}
+								if strings.HasSuffix(n, ".Item).Value") || strings.HasSuffix(n, ".Item).ValueCopy") {
+									reached = true
+								}
+								for _, sc := range setCalls {
+									if sc == c {
+										reached = true
+									}
+								}
+							}
+							return reached
+						})
+						if !reached {
+							told = true
+						} else {
+							whyT = "a key of the vertex-hash length still reaches the funds callback"
+						}
+					}
+				}
+			}
+		}
+	}
+	r.check(told, rule, "records-told-apart", w.Pos(each.fn.Pos()), "the funds enumeration skips the vertex records of the shared store", whyT)
 }
